@@ -185,6 +185,28 @@ Fixpoint liquidity_loop (fuel : nat) (g dur now last nres : Z) : option (list Z 
          end
   end.
 
+(* updateLiquidityRewards together with WHAT it issues. Every pass of the loop, after checkAndPerformUpdateEpoch has
+   stored LastEpoch+1, calls computeLiquidityRewardsForEpoch(context, uint64(lastEpoch.LastEpoch)), and that routine
+   looks the emission up for the epoch it is handed (constants.LiquidityRewardForEpoch(epoch), the go2coq translation)
+   and returns two Mint blocks (ZNN, QSR) to the liquidity contract. Result: the issued (epoch, (znn, qsr)) in the
+   order of the descendant blocks and the stored LastEpoch; Crash = the emission lookup panics. *)
+Fixpoint liquidity_issue (fuel : nat) (g dur now last nres : Z) : option (outcome (list (Z * (Z * Z)) * Z)) :=
+  match fuel with
+  | O => None
+  | S k =>
+    if MaxEpochsPerUpdate <=? nres then Some (Done ([], last))
+    else if negb (update_due g dur now last) then Some (Done ([], last))
+    else let e := wrapS 64 (last + 1) in
+         match LiquidityRewardForEpoch (u64 e) with
+         | Panic => Some Crash
+         | Ok t =>
+           match liquidity_issue k g dur now e (nres + 2) with
+           | Some (Done (ms, l')) => Some (Done ((e, t) :: ms, l'))
+           | r => r
+           end
+         end
+  end.
+
 (* the loop before the fix, kept as a record of the finding:
      if err := checkAndPerformUpdateEpoch(..); err == TooRecent || len(result) >= MaxEpochsPerUpdate { return result }
    checkAndPerformUpdateEpoch had already stored LastEpoch+1 when the second disjunct was evaluated. *)
